@@ -46,12 +46,18 @@ Definition kvpred (c a : Z) : Z -> Z -> bool :=
   | _ => fun k _ => k =? a
   end.
 
+(* Go's int is 64 bits wide: the callbacks that do arithmetic wrap (the harness
+   sends keys and values up to the limits of int64).  The helpers themselves
+   only copy and compare keys and values.  The parity tests (kvpred 4, mpred 5)
+   are unaffected by wrap-around: 2^64 is even. *)
+Definition wrap64 (z : Z) : Z := (z + 2 ^ 63) mod 2 ^ 64 - 2 ^ 63.
+
 Definition vfun (c : Z) : Z -> Z :=
   match c with
   | 0 => fun v => v
-  | 1 => fun v => v * 2
+  | 1 => fun v => wrap64 (v * 2)
   | 2 => fun _ => 7
-  | 3 => fun v => - v
+  | 3 => fun v => wrap64 (- v)
   | _ => fun v => Z.rem v 2
   end.
 
@@ -60,9 +66,9 @@ Definition kfun (c : Z) : Z -> Z -> Z :=
   | 0 => fun k _ => k
   | 1 => fun k _ => Z.rem k 2
   | 2 => fun _ _ => 0
-  | 3 => fun k v => k + v
+  | 3 => fun k v => wrap64 (k + v)
   | 4 => fun _ v => v
-  | _ => fun k _ => k + 10
+  | _ => fun k _ => wrap64 (k + 10)
   end.
 
 Definition zsum (l : list Z) : Z := fold_left Z.add l 0.
@@ -128,9 +134,16 @@ Definition rd_item2 : reader (amapV amap) := fun w =>
 Definition rd_coll2 : reader (list (amapV amap)) := fun w =>
   match rd_len w with Some (n, w') => rd_n rd_item2 n w' | None => None end.
 
+(* 24-26: MapUnique / Invert / MapContains instantiated at float64 values (the
+   harness passes v/4 for the wire value v — exact — and multiplies results by
+   4; no NaN): the same model functions *)
+Definition base_fn (fn : Z) : Z :=
+  match fn with 24 => 15 | 25 => 10 | 26 => 18 | _ => fn end.
+
 Definition decode (w : list Z) : option inp :=
   match w with
-  | fn :: a =>
+  | fn0 :: a =>
+      let fn := base_fn fn0 in
       let base := mkInp fn 0 0 [] [] [] [] [] in
       let only_m :=
           match rd_map a with Some (m, []) => Some (mkInp fn 0 0 m [] [] [] []) | _ => None end in
@@ -270,9 +283,10 @@ Definition holds_one (i : inp) (o : list Z) : bool :=
             value; every image is a result key; keys distinct *)
       match out_map o with
       | Some r =>
+          let img := map (fun kv => (kfun c (fst kv) (snd kv), snd kv)) m in   (* (image key, value), computed once *)
           nodup_z (map fst r)
-          && forallb (fun rv => existsb (fun kv => (kfun c (fst kv) (snd kv) =? fst rv) && (snd kv =? snd rv)) m) r
-          && forallb (fun kv => mem_z (kfun c (fst kv) (snd kv)) (map fst r)) m
+          && forallb (fun rv => mem_kv rv img) r
+          && forallb (fun iv => mem_z (fst iv) (map fst r)) img
       | None => false
       end
   | 10 => (* Invert: every value maps back to a key that held it *)
